@@ -175,8 +175,8 @@ fn check_scope_fault(ctx: &mut Ctx, h: &H, context: &[&str], style: &Style, seed
                         }
                     }
                 }
-                let cat = format!("Variable `{name}` not in scope.");
-                let relevant: Vec<&String> = msgs.iter().filter(|m| m.contains(&cat)).collect();
+                let cat = format!("`{name}` not in scope");
+                let relevant: Vec<&String> = msgs.iter().filter(|m| m.contains(&format!("`{name}`")) && m.contains("not in scope")).collect();
                 if relevant.is_empty() {
                     continue; // C08 reports missing diagnostics
                 }
@@ -195,8 +195,8 @@ fn check_scope_fault(ctx: &mut Ctx, h: &H, context: &[&str], style: &Style, seed
                 }
             }
             ScopeErr::AlreadyExists(name) => {
-                let cat = format!("Variable `{name}` already exists.");
-                for m in msgs.iter().filter(|m| m.contains(&cat)) {
+                let cat = format!("`{name}` already exists");
+                for m in msgs.iter().filter(|m| m.contains(&format!("`{name}`")) && m.contains("already exists")) {
                     let Some(ex) = excerpt_of(m) else {
                         viol(ctx, "diagnostic-without-excerpt", &format!("scoping diagnostic carries no excerpt: {m}"), src);
                         return;
@@ -258,7 +258,7 @@ fn check_stray_symbol(ctx: &mut Ctx, base: &str, r: &mut Rng) {
         Ok(Ok(())) => viol(ctx, "stray-symbol-accepted", "tokenize accepted a text with a stray symbol", &src),
         Ok(Err(msgs)) => {
             let want = rlisting(&src, pos, pos + sym.len());
-            let ok = msgs.len() == 1 && msgs[0].contains(&format!("Unexpected symbol `{sym}`")) && excerpt_of(&msgs[0]).map(str::to_owned) == want;
+            let ok = msgs.len() == 1 && msgs[0].contains(&format!("`{sym}`")) && excerpt_of(&msgs[0]).map(str::to_owned) == want;
             if !ok {
                 viol(ctx, "stray-symbol-excerpt", &format!("expected one diagnostic marking exactly `{sym}` at byte {pos}; got {}", clip(&msgs.join(" | "), 600)), &src);
             } else {
